@@ -62,6 +62,11 @@ impl HeaderCase {
         // at most one non-legal declared value per case, never over the wire
         let odd = if !live && !names.is_empty() && rng.chance(1, 12) { Some(rng.usize(names.len())) } else { None };
         for (i, n) in names.iter().enumerate() {
+            if *n == "etag" && odd != Some(i) && rng.chance(1, 3) {
+                // the optional header is left out of this response
+                classes.push("optional-absent".to_string());
+                continue;
+            }
             if odd == Some(i) {
                 if rng.bool() {
                     let (v, c) = illegal_header_value(rng);
@@ -79,7 +84,7 @@ impl HeaderCase {
                     classes.push("borderline".to_string());
                     declared.push((*n, v));
                 }
-            } else if rng.chance(1, 10) {
+            } else if *n != "etag" && rng.chance(1, 10) {
                 // the empty string is a legal field value (RFC 9110: field-value =
                 // *field-content): the header must be present, with an empty value
                 classes.push("empty".to_string());
